@@ -814,6 +814,71 @@ def contract_app(case):
     return ("ok", nontrivial)
 
 
+# ==================================================================================================== canonical codons of non-canonical sequences
+NC_SYMS = "N?RYW"
+
+
+def gen_noncanon(tier, seed):
+    """sequences of 2..4 (thorough ..6) codons in which 1..2 positions hold a non-canonical symbol; plus / minus strand
+    views and frames; every sequence-level entry point, and collections"""
+    rnd = random.Random(seed + 12)
+    thorough = tier == "thorough"
+    n = 1500 if thorough else 260
+    for i in range(n):
+        gid = rnd.choice(CODE_IDS) if i % 3 == 0 else 1
+        mt = "rna" if i % 5 == 4 else "dna"
+        k = rnd.randint(2, 6 if thorough else 4)
+        s = list(rnd_seq(rnd, 3 * k, 3 * k))
+        for _ in range(rnd.choice((1, 1, 2))):
+            s[rnd.randrange(len(s))] = rnd.choice(NC_SYMS)
+        s = "".join(s)
+        if mt == "rna":
+            s = s.replace("T", "U")
+        view = rnd.choice([None, ["-", 0], ["-", 0], ["+", 0], ["-", 3], ["+", 3]])
+        for e in (SEQ_ENTRIES if i % 2 else ["new.seq", "old.seq", "new.coll", "old.coll"]):
+            if mt == "rna" and e.startswith("old"):
+                continue                       # old-style RNA cannot be translated at all: finding C12-K6 (translation contract)
+            v = view
+            if view and e.endswith("coll"):
+                v = [view[0], 0]               # collections are not sliceable
+            yield [e, gid, mt, s, v]
+
+
+def contract_noncanon(case):
+    entry, gid, mt, s, view = case
+    kind = entry.split(".")[1]
+    pre = f"noncanon/{entry}/{mt}"
+    shown = s
+    if view:
+        if view[0] == "-":
+            shown = S.rc_spec(shown, mt)
+        shown = shown[view[1]:]
+    try:
+        obj = build(entry, [["s1", s]], mt)
+        if view:
+            if view[0] == "-":
+                obj = obj.rc()
+            if view[1]:
+                obj = obj[view[1]:]
+        res = obj.get_translation(gid, incomplete_ok=True, include_stop=True, trim_stop=False)
+        got = view_of(res, kind)[1]["s1"]
+    except Exception as e:
+        return ("fail", f"{pre}/raises-{type(e).__name__}", f"{case}: {_exc(e)}")
+    dna = shown.replace("U", "T")
+    want = []
+    for i in range(0, len(dna) - len(dna) % 3, 3):
+        c = dna[i:i + 3]
+        want.append(S.translate_spec(c, gid)[0] if set(c) <= set("ACGT") else None)
+    if len(got) != len(want):
+        return ("fail", f"{pre}/length", f"{case}: displayed {shown!r} translated to {got!r}")
+    bad = [(i, shown[3 * i:3 * i + 3], g, w) for i, (g, w) in enumerate(zip(got, want)) if w is not None and g != w]
+    if bad:
+        strand = "minus" if view and view[0] == "-" else "plus"
+        return ("fail", f"{pre}/canonical-codon-mistranslated/{strand}-strand-view",
+                f"{case}: displayed {shown!r} -> {got!r}; canonical codon #{bad[0][0]} {bad[0][1]!r} must be {bad[0][3]!r}")
+    return ("ok", any(w is not None for w in want))
+
+
 # ==================================================================================================== complement
 SYMS = {"dna": "ACGTRYMKSWBDHVN-?", "rna": "ACGURYMKSWBDHVN-?"}
 
@@ -838,6 +903,18 @@ def gen_complement(tier, seed):
                 if impl == "old":
                     yield [impl, mt, "aln", seqs]
                     yield [impl, mt, "arr", seqs]
+
+
+def _other_readings(y):
+    """further read-only views of a (new-style) sequence object: bytes(y) and numpy.array(y) decoded by the moltype's
+    own most degenerate alphabet; [] where the class offers neither"""
+    out = []
+    if hasattr(type(y), "__bytes__"):
+        out.append(("bytes", bytes(y).decode("utf8")))
+    if hasattr(type(y), "__array__") and hasattr(y.moltype, "most_degen_alphabet"):
+        import numpy
+        out.append(("array", str(y.moltype.most_degen_alphabet().from_indices(numpy.array(y)))))
+    return out
 
 
 def contract_complement(case):
@@ -871,6 +948,10 @@ def contract_complement(case):
                 y = getattr(x, name)()
                 if str(y) != exp:
                     return mismatch(name, str(y), exp, s if name == "complement" else s[::-1])
+                for reading, txt in _other_readings(y):
+                    if txt != exp:                 # the same object read as bytes / as an index array
+                        r = mismatch(name, txt, exp, s if name == "complement" else s[::-1])
+                        return ("fail", r[1].replace(f"/{name}/", f"/{name}[{reading}]/"), f"{reading} reading: {r[2]}")
                 z = getattr(y, name)()
                 if str(z) != s:
                     return ("fail", f"{pre}/{name}-not-involution", f"{name} twice on {s!r} gives {str(z)!r}")
@@ -1013,6 +1094,18 @@ BOUNDED = {
                 "reading frame of its input without internal stop (terminal stop trimmed when asked), and an input with such "
                 "a frame is not dropped",
     },
+    "noncanonical": {
+        "gen": gen_noncanon, "contract": contract_noncanon,
+        "functions": ["Sequence.get_translation (old, new)", "SequenceCollection.get_translation (old, new)",
+                      "new_sequence.Sequence.__array__ (strand handling of the index array read by translation)"],
+        "bound": "260 (thorough 1500) seeded sequences of 2..4 (thorough ..6) codons, DNA and RNA, with 1..2 positions replaced "
+                 "by one of N?RYW; plain, sliced, reverse-complemented and rc+sliced views; sequence (all) and collection "
+                 "(every second case, unsliced) entry points; code 1 and, every third case, a random code; incomplete_ok=True, "
+                 "include_stop=True, trim_stop=False; old-style RNA left out (finding C12-K6)",
+        "rule": "the result has one letter per displayed codon and every codon made of canonical bases only shows the "
+                "table's amino acid (what a codon holding a non-canonical symbol becomes is left open); non-trivial = at "
+                "least one canonical codon",
+    },
     "complement": {
         "gen": gen_complement, "contract": contract_complement,
         "functions": ["moltype.MolType.complement/rc", "new_moltype.MolType.complement/rc", "Sequence.rc/complement/"
@@ -1020,7 +1113,8 @@ BOUNDED = {
         "bound": "DNA and RNA, old/new: every string of length 0..3 over the 17 IUPAC symbols (moltype level; sequence level "
                  "0..2, thorough 0..3); seeded random strings of length 4..30; random collections / alignments of 1..3 rows",
         "rule": "complement = symbol of the complemented base set, position by position; rc = reversed complement; both are "
-                "involutions; receiver unchanged; names and order kept",
+                "involutions; receiver unchanged; names and order kept; new-style sequence objects are read three ways "
+                "(str, bytes, index array decoded by the moltype's alphabet) and all must show the same symbols",
     },
     "ambiguity": {
         "gen": gen_ambiguity, "contract": contract_ambiguity,
